@@ -311,7 +311,7 @@ func c07Profiles(tier Tier) []*explore.Profile {
 	// a contract as creator (its hand-over message travels with a contract as caller), and holders
 	// that are granted a further role while a hand-over message to them is still in flight
 	cc := &explore.Profile{
-		Name: "contract-creator", EnvCfg: ledgerEnv(2), Depth: depth - 1, Deadline: tierDeadline(tier), WithGhost: true,
+		Name: "contract-creator", EnvCfg: ledgerEnv(2), Depth: 6 + map[bool]int{true: 1, false: 0}[tier.Thorough()], Deadline: tierDeadline(tier), WithGhost: true,
 		Oracles: []explore.Oracle{&nonceOracle{property: "C07"}},
 		Seeds: func(env *world.Env) []explore.SeedState {
 			b := uni.SeedBuilder(env, "sft")
